@@ -3,8 +3,17 @@ from harness import casgen, common, refio, sessions
 from harness.common import bud
 
 PROP = "C02"
-MODULES = ["CassisModel.Properties.C02", "CassisModel.Properties.C02Closure", "CassisModel.Properties.C02RoundTrip", "CassisModel.Properties.C02RoundTripColl", "CassisModel.Properties.C02AppliesColl", "CassisModel.Properties.C02EmbeddedTs"]
+MODULES = ["CassisModel.Properties.C02", "CassisModel.Properties.C02Closure", "CassisModel.Properties.C02RoundTrip", "CassisModel.Properties.C02RoundTripColl", "CassisModel.Properties.C02AppliesColl", "CassisModel.Properties.C02EmbeddedTs", "CassisModel.Properties.C02RoundTripEmbedded"]
 THEOREMS = [
+    "Cassis.Json.json_roundtrip_full_flat",
+    "Cassis.Json.json_roundtrip_full_coll",
+    "Cassis.Json.json_roundtrip_minimal_flat",
+    "Cassis.Json.json_roundtrip_minimal_coll",
+    "Cassis.Json.json_minimal_ts_agree",
+    "Cassis.Json.loadJson_congr_sameTs",
+    "Cassis.Json.loadJson_congr",
+    "Cassis.Json.loadJson_merge",
+    "Cassis.Json.saveJson_mode_fss",
     "Cassis.Json.json_full_ts_same",
     "Cassis.Json.json_full_ts_same_needs_writable",
     "Cassis.Json.parseFloatValue_special",
@@ -259,7 +268,7 @@ def run(ctx, out, budget):
     n = bud(budget, 150, 15000)
     cases = [(make_case(rng, rng.randint(1, 10)), CONFIGS[k % len(CONFIGS)]) for k in range(n)]
     run_cases(ctx, out, cases, "gen")
-    out.partial = ["outside the fragment of json_roundtrip_coll (sofa URIs, ...) and for the configurations with an embedded type system (only the type system itself: json_full_ts_same): implementation oracle + model correspondence only"]
+    out.partial = ["outside the fragment of json_roundtrip_coll (sofa URIs, ...) and for the configurations that merge the embedded type system into a supplied one (finding J9): implementation oracle + model correspondence only"]
 
 
 def replay(ctx, payload):
